@@ -27,6 +27,9 @@ PickCase == /\ c.stage = 1
                  \/ \E m \in 1..12 : c' = Mk("month", p, 0, <<0, 0, 0, 0>>, m, 0, 0)
                  \/ \E m \in 1..12, d \in {1, 15, 28, 29, 30, 31} :
                       d <= DIM(2000, m) /\ c' = Mk("daymonth", p, 0, <<0, 0, 0, 0>>, m, d, 0)
+                 \* day and month with a clock time: the reference's own day and month (the time decides the side) and two others
+                 \/ \E md \in {<<c.base[2], c.base[3]>>, <<1, 1>>, <<12, 31>>, <<6, 15>>}, g \in ClockGrid :
+                      md[2] <= DIM(2000, md[1]) /\ c' = Mk("daymonthtime", p, 0, <<g \div 100, g % 100, 0, 0>>, md[1], md[2], 0)
                  \/ \E m \in {2, 6, 12}, d \in {1, 28, 30}, yy \in YYs :
                       d <= DIMTab[m] /\ c' = Mk("yy", p, 0, <<0, 0, 0, 0>>, m, d, yy)
 Next == PickBase \/ PickCase
@@ -40,6 +43,7 @@ Toks(cc) ==
     [] cc.form = "time"     -> <<ColT(<<<<2, cc.t[1]>>, <<2, cc.t[2]>>>>)>>
     [] cc.form = "month"    -> <<MonthT(cc.m)>>
     [] cc.form = "daymonth" -> <<NumT(NLen(cc.d), cc.d), SepT(FALSE), MonthT(cc.m)>>
+    [] cc.form = "daymonthtime" -> <<NumT(NLen(cc.d), cc.d), SepT(FALSE), MonthT(cc.m), SepT(FALSE), ColT(<<<<2, cc.t[1]>>, <<2, cc.t[2]>>>>)>>
     [] cc.form = "yy"       -> <<NumT(NLen(cc.d), cc.d), SepT(FALSE), MonthT(cc.m), SepT(FALSE), NumT(2, cc.yy)>>
 
 GeneratedInDomain == c.stage = 2 => InDomain(c)
